@@ -62,6 +62,8 @@ def main():
             s = rng.choice([b, b, max(1, b // 2), max(1, b // 3), 1]) if b > 1 else 1
             reflen = rng.choice([b * 4, b * 4 + 1, b * 5 - 1, 97, 1000])
             keep = rng.random() < 0.4
+            bintag = rng.choice(['DS', 'DS', 'bp', 'xs'])          # any bin tag
+            sliding_arg = None if (s == b and rng.random() < 0.5) else s   # default: sliding = bin
             header = bamgen.make_header([('chrA', reflen), ('chrB', reflen)])
             reads, desc = [], []
             n = rng.randint(1, 12)
@@ -76,11 +78,12 @@ def main():
                 paired = rng.random() < 0.3
                 reads.append(bamgen.make_read(header, 'r%d' % i, contig, pos, 'ACGT', paired=paired, read1=paired,
                                               mate_contig=contig if paired else None, mate_pos=pos,
-                                              tags={'SM': sample, 'DS': c}))
-                desc.append({'c': c, 'w': 1 if paired else 2, 'sample': sample + '|' + contig})
+                                              tags={'SM': sample, bintag: c} if rng.random() < 0.9 else {'SM': sample}))
+                if reads[-1].has_tag(bintag):    # a read without the bin tag has no coordinate and is outside the claim
+                    desc.append({'c': c, 'w': 1 if paired else 2, 'sample': sample + '|' + contig})
             path = os.path.join(tmp, 'b%d.bam' % k)
             bamgen.write_bam(path, header, reads)
-            args = SimpleNamespace(alignmentfiles=[path], head=None, o=None, bin=b, binTag='DS', sliding=s,
+            args = SimpleNamespace(alignmentfiles=[path], head=None, o=None, bin=b, binTag=bintag, sliding=sliding_arg,
                                    bedfile=None, showtags=False, featureTags=None, joinedFeatureTags='reference_name',
                                    byValue=None, sampleTags='SM', proper_pairs_only=False, no_indels=False,
                                    max_base_edits=None, no_softclips=False, minMQ=0, filterXA=False, dedup=False,
